@@ -270,7 +270,10 @@ def directive_events():
         for d in ('+SKIP', '-SKIP', '+REQUIRES(%s)' % gd.MET, '-REQUIRES(%s)' % gd.MET,
                   '+REQUIRES(%s)' % gd.UNMET_A, '-REQUIRES(%s)' % gd.UNMET_A,
                   '+REQUIRES(%s)' % gd.UNMET_B, '-REQUIRES(%s)' % gd.UNMET_B,
-                  '+ELLIPSIS', '-ELLIPSIS'):
+                  '+ELLIPSIS', '-ELLIPSIS',
+                  # several conditions in one directive, met ones before and after unmet ones
+                  '+REQUIRES(%s, %s)' % (gd.MET, gd.UNMET_A), '+REQUIRES(%s, %s)' % (gd.UNMET_A, gd.MET),
+                  '-REQUIRES(%s, %s)' % (gd.MET, gd.UNMET_A)):
             ev.append((where, d))
     return ev
 
